@@ -205,6 +205,9 @@ def verdictBegin (d : DState) (impl : String) : String :=
         let expReg := (regIds d.o).filter fun i => !kills.contains i
         if balStr exp != field ws "bal" then "fail:not_all_or_nothing:balances"
         else if expReg != natList (field ws "reg") then "fail:not_all_or_nothing:registry"
+        -- the documented per-block cap is on ACTIONS (x/trigger/spec/06: "a maximum of 5 actions …
+        -- per BeginBlock"); the code counts triggers (known finding C17-action-cap-counts-triggers)
+        else if (xs.map (·.outs.length)).sum > MaximumActions then "fail:more_actions_than_the_per_block_cap"
         else "ok"
 
 def verdictEnd (d : DState) (impl : String) : String :=
